@@ -87,7 +87,7 @@ func Shrink(pkg *Pkg, file *File, variant Variant, class string) (string, int) {
 			srcs[k] = v
 		}
 		srcs[file.Name] = src
-		p, err := TypeCheck("shrink", pkg.Name, srcs)
+		p, err := TypeCheck("shrink", pkg.Name, "", srcs)
 		if err != nil {
 			return false
 		}
